@@ -65,6 +65,11 @@ K(pos) == tamper[pos]        \* the tampering applied at a position ("none" = un
    foreignproof : NSEC from a sibling zone    -> filtered, incomplete denial
    inject    : out-of-zone RRset in the answer-> fatal in the answer section
    clonetag  : extra key with the same tag    -> candidates retried, genuine key still verifies
+   roguekey  : an attacker's key added to the DNSKEY RRset, the RRset re-signed with THAT key only
+               (the DS-matched key is still in the set)  -> RFC 4035 5.2: the apex DNSKEY RRset must be
+               authenticated by a signature of the key the DS refers to, so the set is bogus
+   roguesig  : answer data altered and re-signed, signer name = the zone, with the attacker's key
+               -> verifies only if that key was accepted into the zone's key set (roguekey)
 *)
 BreaksSig(k) == k \in {"data", "sigbytes", "signer", "labels", "expired", "notyet"}
 
@@ -102,7 +107,7 @@ Dnskey ==
   /\ keyState' =
        IF dsState = "bogus" THEN "bogus"
        ELSE IF dsState = "insecure" THEN "none"
-       ELSE IF BreaksSig(K("dnskey")) \/ K("dnskey") \in {"strip", "swapds"} THEN "bogus"
+       ELSE IF BreaksSig(K("dnskey")) \/ K("dnskey") \in {"strip", "swapds", "roguekey"} THEN "bogus"
        ELSE "trusted"
   /\ pc' = "answer"
   /\ UNCHANGED <<zone, qk, flags, tamper, anchor, dsState, ansState, reply>>
@@ -116,7 +121,7 @@ Answer ==
        ELSE IF keyState = "none" THEN     \* provably insecure zone: data accepted unsigned;
          "insecure"                       \* foreign answer records are dropped, not fatal (C07's filter)
        ELSE
-         (IF BreaksSig(k) \/ k \in {"strip", "inject"} THEN "bogus"
+         (IF BreaksSig(k) \/ k \in {"strip", "inject", "roguesig"} THEN "bogus"
           ELSE IF NeedsProof /\ k \in {"dropproof", "foreignproof"} THEN "bogus"
           ELSE "secure")
   /\ pc' = "reply"
